@@ -1,1 +1,2 @@
 import OHVerif.Model.Dispatch
+import OHVerif.Spec.Lawful
